@@ -18,6 +18,19 @@ Theorem C02_evolution : forall path (u : string -> list string) its fresh' its',
 Proof. exact regen_file_evolution. Qed.
 Print Assumptions C02_evolution.
 
+(* "generated text outside tag pairs never depends on the old model": the regenerated file depends on the OLD file only
+   through the blocks that survive -- two old files, of any two old models and with any text outside their tags, whose
+   surviving blocks agree regenerate to the same bytes *)
+Theorem C02_old_model_irrelevant : forall path (u1 u2 : string -> list string) its1 its2 fresh' its',
+  wfb its1 = true -> items_okb its1 = true -> (forall k, block_ok (u1 k) = true) ->
+  wfb its2 = true -> items_okb its2 = true -> (forall k, block_ok (u2 k) = true) ->
+  parse_items fresh' = Some its' -> Forall (wf_fresh_item kof kpfx) its' ->
+  (forall k, (if memk String.eqb k (pair_keys kof its1) then u1 k else [])
+           = (if memk String.eqb k (pair_keys kof its2) then u2 k else [])) ->
+  fst (regen_file path fresh' (on_disk u1 its1)) = fst (regen_file path fresh' (on_disk u2 its2)).
+Proof. exact old_model_irrelevant. Qed.
+Print Assumptions C02_old_model_irrelevant.
+
 (* The whole directory. *)
 Theorem C02_tree_evolution : forall outdir fresh0 fresh1 U,
   fresh_ok fresh0 -> blocks_ok U -> names_ok (keys fresh1) ->
